@@ -441,7 +441,12 @@ func cmdTranslate(repo, outDir string) int {
 		fmt.Println("translate: ", err)
 		return 2
 	}
-	hows := []string{}
+	factsMsg, err := writeFacts(outDir, repo)
+	if err != nil {
+		fmt.Println("translate: facts: ", err)
+		return 2
+	}
+	hows := []string{factsMsg}
 	for _, p := range predNames {
 		hows = append(hows, p+"="+how[p]+":"+strconv.Itoa(len(tabs[p])))
 	}
